@@ -14,10 +14,10 @@ Ev == Log[l]
 \* a block given back by the thread whose cache holds it (draining the cache, e.g. when the thread ends)
 DrainFree(t, b) == /\ alive[t] /\ b \in cache[t]
                    /\ blk' = [blk EXCEPT ![b] = Free] /\ cache' = [cache EXCEPT ![t] = @ \ {b}]
-                   /\ UNCHANGED <<chan, alive, raced>>
+                   /\ UNCHANGED <<chan, alive, raced, res>>
 TExit(t) == /\ alive[t] /\ \A b \in Blocks : ~(blk[b].st = "vec" /\ blk[b].th = t)
             /\ cache[t] = {} /\ Len(Ev.left) = 0        \* storage cached by the thread has been given back
-            /\ alive' = [alive EXCEPT ![t] = FALSE] /\ UNCHANGED <<blk, cache, chan, raced>>
+            /\ alive' = [alive EXCEPT ![t] = FALSE] /\ UNCHANGED <<blk, cache, chan, raced, res>>
 TNext == /\ l <= Len(Log) /\ l' = l + 1 /\ nops' = nops
          /\ LET e == Ev.e IN
             CASE e = "AllocNew" -> AllocNew(Ev.t, Ev.b)
@@ -27,7 +27,10 @@ TNext == /\ l <= Len(Log) /\ l' = l + 1 /\ nops' = nops
               [] e = "Send" -> Send(Ev.t, Ev.b)
               [] e = "Recv" -> Recv(Ev.t, Ev.b)
               [] e = "Exit" -> TExit(Ev.t)
-              [] e = "Respawn" -> (~alive[Ev.t] /\ alive' = [alive EXCEPT ![Ev.t] = TRUE] /\ UNCHANGED <<blk, cache, chan, raced>>)   \* a new thread under the same label
+              [] e = "Respawn" -> (~alive[Ev.t] /\ alive' = [alive EXCEPT ![Ev.t] = TRUE] /\ UNCHANGED <<blk, cache, chan, raced, res>>)   \* a new thread under the same label
+              [] e = "ResMake" -> ResMake(Ev.t, Ev.r)
+              [] e = "ResUse" -> ResUse(Ev.t, Ev.r)
+              [] e = "ResDrop" -> ResDrop(Ev.t, Ev.r)
               [] OTHER -> FALSE
 TInit == Init /\ l = 1
 TSpec == TInit /\ [][TNext]_tvars
